@@ -121,7 +121,18 @@ def check_pipeline(case, out):
                 der = R.opt.compute_derived_trace(0)
             return prof, spec, der
         random.seed(4242)
+        # which samples the random sigma_fraction sub-sample holds (recorded from the single-process run)
+        drawn = []
+        orig_sp = Rs[0].opt.sample_parameters
+
+        def recording(sol):
+            for x, w_ in orig_sp(sol):
+                drawn.append(float(w_))
+                yield x, w_
+        Rs[0].opt.sample_parameters = recording
         single = cut(out, 'single-process', work, Rs[0])
+        Rs[0].opt.sample_parameters = orig_sp
+        massless = bool(drawn) and max(drawn) < 1e-290
         random.seed(4242)      # only rank 0 draws the sub-sample (and broadcasts it)
         with doubles.simulated_mpi(nr) as run:
             res = cut(out, 'ranks', run, lambda r: work(Rs[r + 1]))
@@ -154,14 +165,19 @@ def check_pipeline(case, out):
         scales = {'temp_profile_std': float(np.max(Rs[0].m.temperatureProfile)) * 2, 'active_mix_profile_std': 1.0,
                   'inactive_mix_profile_std': 1.0, 'native_std': float(np.max(np.abs(nominal[1]))) * 10,
                   'binned_std': float(np.max(np.abs(nominal[1]))) * 10}
+        if massless:
+            # every sub-sampled point has zero posterior weight (carried as 1e-300): the weighted sums of squares are
+            # denormal numbers (1e-300 x spread^2) with few significant bits, in any evaluation order -- nothing to compare
+            out.cls('subsample-without-mass')
         for r in range(nr):
             prof, spec, der = res[r]
-            out.applies('pipeline-std')
-            for k in single[0]:
+            if not massless:
+                out.applies('pipeline-std')
+            for k in ([] if massless else single[0]):
                 if k not in prof or not same(prof[k], single[0][k], scales.get(k, 1.0)):
                     out.fail('pipeline-std@profiles,%s' % tag, 'rank %d of %d: %s differs from the single-process value' % (r, nr, k))
                     break
-            for k in single[1]:
+            for k in ([] if massless else single[1]):
                 if k not in spec or not same(spec[k], single[1][k], scales.get(k, 1.0)):
                     out.fail('pipeline-std@spectra,%s' % tag, 'rank %d of %d: %s differs from the single-process value' % (r, nr, k))
                     break
@@ -253,6 +269,9 @@ def check_variance(case, out):
     atol = 1e-11 * scale + 1e-300
     # conditioning: values near `off` with spread sp lose (off/sp)^2 * eps in any one-pass scheme
     atol += 64 * 2.3e-16 * (abs(off) + abs(sp)) ** 2 if scale > 0 else 0.0
+    if scale == 0:
+        # identical values, unequal weights: the pooled mean carries a rounding error of eps*|x|, its square is the floor
+        atol += 64 * (2.3e-16 * float(np.max([np.max(np.abs(x)) for x in xs]))) ** 2
     out.applies('single==two-pass')
     if not close(single, var, rtol=rtol, atol=atol):
         out.fail('single==two-pass', 'single-process %r two-pass %r' % (single, var))
